@@ -1,1 +1,15 @@
 """Matchers for known findings (DESIGN §2.8).  matcher(case, failure_record) -> bool."""
+
+
+def d19_single_value_forced_extension(case, rec):
+    """C13: forced extension of a single-value frame (old divisions (x, x)) to
+    new divisions [.., .., x, x] with >= 2 boundaries below x loses the rows."""
+    if not isinstance(case, dict) or case.get("mode") != "divisions" or not case.get("force"):
+        return False
+    old, new = case["old"], case["new"]
+    return (
+        rec.get("kind") == "rows-or-order"
+        and len(old) == 2 and old[0] == old[1]
+        and len(new) >= 4 and new[-1] == new[-2] == old[0]
+        and new[0] < new[1] < old[0]
+    )
